@@ -30,6 +30,9 @@ type symEnv struct {
 	other  string                  // setFloat/setString/… reached instead
 	rets     []string
 	returned bool
+	// leaf, when set, is consulted first for every expression: a sub-expression
+	// it recognises is a parameter of the generated term (facts_vmexec.go).
+	leaf func(x ast.Expr) (string, bool)
 }
 
 // call translates a loop-free function applied to argument expressions
@@ -121,6 +124,11 @@ var binNames = map[token.Token]string{
 }
 
 func (s *symEnv) term(x ast.Expr) (string, error) {
+	if s.leaf != nil {
+		if t, ok := s.leaf(x); ok {
+			return t, nil
+		}
+	}
 	if v := s.e.eval(x); v != nil && v.Kind() == constant.Int {
 		return fmt.Sprintf("(Some (%s)%%Z)", v.ExactString()), nil
 	}
